@@ -39,7 +39,8 @@ def cases(rng, tier):
             elif r < 8:
                 s = rng.bytes(rng.below(6))
             else:
-                s = rng.choice([b"", b"=", b"=x", b"a", b"a=", b"a=b=c", b"\xff=1", b"k=\xff", b"a;b=c", b"A=1", b"A", b"Path=/x", b"path=/y", b"PATH"])
+                s = rng.choice([b"", b"=", b"=x", b"a", b"a=", b"a=b=c", b"\xff=1", b"k=\xff", b"a;b=c", b"A=1", b"A", b"Path=/x", b"path=/y", b"PATH",
+                                b"path=C:\\;mode=rw", b"a\\;b=c", b"k=\\", b"\\;", b"k=\\;", b'q="', b'k=""', b'k="v;w"', b"k=a\\=b;c"])
             strs.append(s[:255])
         out.append("TXTATTR " + " ".join(["%x" % len(strs)] + [(x.hex() or "-") for x in strs]))
     # maps
